@@ -418,6 +418,9 @@ impl RdbEngine {
             .open(path)
             .map_err(|e| FerrousError::Io(format!("Failed to create RDB file: {}", e)))?;
         
+        #[cfg(ferrous_verif)]
+        let file = crate::verif::FaultyFile(file);
+        
         let mut writer = RdbWriter::new(BufWriter::new(file));
         
         // Write header
